@@ -538,6 +538,9 @@ func extractStructure(e *env, f *facts) {
 		}
 	}
 	f.StrList["readLoopShape"] = shape
+	// the read loop never waits for the write lock (a writer may be stalled in the transport while holding it)
+	rlBody := strings.Join(strings.Fields(src(p, p.fn("Conn.ReadLoop").Body)), "")
+	f.Bool["readLoopNeverWaitsForWriteLock"] = !strings.Contains(rlBody, "c.mu.Lock()")
 }
 
 func contains(l []string, s string) bool {
